@@ -252,6 +252,42 @@ def DEFAULT_OF(ty):
     return {"int": "0", "bool": "false", "str": "[]", "nat": "0"}[ty]
 
 
+PY_BUILTINS = {"max", "min", "len", "sum", "sorted", "list", "tuple", "set", "str", "int", "abs", "all", "any", "enumerate", "range", "zip", "isinstance"}
+
+
+def first_evaluated(e):
+    """the first sub-expression Python evaluates in `e` that is not a constant or the name of a builtin being called: the value of a local assigned
+    just before the statement can be written in its place without changing the order of evaluation"""
+    while True:
+        if isinstance(e, ast.Call):
+            if isinstance(e.func, ast.Name) and e.func.id in PY_BUILTINS:
+                if not e.args:
+                    return e
+                e = e.args[0]
+            else:
+                e = e.func
+        elif isinstance(e, ast.Attribute):
+            e = e.value
+        elif isinstance(e, ast.Subscript):
+            e = e.value
+        elif isinstance(e, (ast.BinOp,)):
+            e = e.left
+        elif isinstance(e, ast.Compare):
+            e = e.left
+        elif isinstance(e, ast.BoolOp):
+            e = e.values[0]
+        elif isinstance(e, (ast.GeneratorExp, ast.ListComp)):
+            e = e.generators[0].iter
+        elif isinstance(e, ast.Tuple) and e.elts:
+            e = e.elts[0]
+        elif isinstance(e, ast.IfExp):
+            e = e.test
+        elif isinstance(e, ast.UnaryOp):
+            e = e.operand
+        else:
+            return e
+
+
 def pure_lookup(e):
     """an expression that only reads: a dotted path, or `<dotted path>.get(<name or constant>)`"""
     if dotted(e):
@@ -1800,9 +1836,30 @@ class Kernel:
                 v, body = key.args.args[0].arg, key.body
             elif isinstance(key, ast.Name) and key.id in getattr(self, "local_defs", {}):
                 fn = self.local_defs[key.id]
-                if len(fn.args.args) != 1 or len(fn.body) != 1 or not isinstance(fn.body[0], ast.Return):
+                fbody = [st for st in fn.body if not (isinstance(st, ast.Expr) and isinstance(st.value, ast.Constant))]
+                if len(fn.args.args) != 1 or not fbody or not isinstance(fbody[-1], ast.Return) \
+                        or not all(isinstance(st, ast.Assign) and len(st.targets) == 1 and isinstance(st.targets[0], ast.Name) and dotted(st.value) for st in fbody[:-1]):
                     raise Unsupported("sort key function shape")
-                v, body = fn.args.args[0].arg, fn.body[0].value
+                # NORMAL FORM: locals that only name an attribute path (`rank = scaffold.rank`) are written back into the returned expression — sound
+                # when they appear there in the order they were assigned and before anything else is evaluated (checked)
+                ret_e = fbody[-1].value
+                subst = {st.targets[0].id: st.value for st in fbody[:-1]}
+                order_ = [n.id for n in ast.walk(ret_e) if isinstance(n, ast.Name) and n.id in subst]
+                leaves = []
+                def walk_eval(e_):
+                    if isinstance(e_, ast.Tuple):
+                        for x in e_.elts:
+                            walk_eval(x)
+                    else:
+                        leaves.append(e_)
+                walk_eval(ret_e)
+                if subst and not (order_ == list(subst) and all(isinstance(l, ast.Name) and l.id == k for l, k in zip(leaves, subst))):
+                    raise Unsupported("sort key function: locals are not used in the order they are assigned")
+
+                class SubK(ast.NodeTransformer):
+                    def visit_Name(self, node):
+                        return subst.get(node.id, node)
+                v, body = fn.args.args[0].arg, SubK().visit(ast.parse(ast.unparse(ret_e), mode="eval").body)
             else:
                 raise Unsupported("sort key")
             env2 = dict(env)
@@ -2180,24 +2237,25 @@ class Kernel:
         # NORMAL FORM: `tmp = <pure lookup>; tmp.m(…)…` where tmp is used exactly once, as the HEAD of the next statement's call chain (the first thing that
         # statement evaluates), and never again: the lookup is written back in place (so `d = self.data.get(k); d.setdefault(…).append(x)` and the
         # one-line spelling give the same Lean text)
-        if isinstance(s, ast.Assign) and len(s.targets) == 1 and isinstance(s.targets[0], ast.Name) and rest and isinstance(rest[0], ast.Expr) \
-                and isinstance(rest[0].value, ast.Call) and pure_lookup(s.value):
+        if isinstance(s, ast.Assign) and len(s.targets) == 1 and isinstance(s.targets[0], ast.Name) and rest \
+                and isinstance(rest[0], (ast.Expr, ast.Return, ast.Assign)) and getattr(rest[0], "value", None) is not None \
+                and not isinstance(s.value, (ast.Constant, ast.Name, ast.JoinedStr, ast.List, ast.Dict, ast.Tuple, ast.Set)) \
+                and not (isinstance(rest[0], ast.Assign) and any(isinstance(n, ast.Name) and n.id == s.targets[0].id for t in rest[0].targets for n in ast.walk(t))):
             tmp = s.targets[0].id
-            head = rest[0].value
-            while True:
-                if isinstance(head, ast.Call):
-                    head = head.func
-                elif isinstance(head, ast.Attribute):
-                    head = head.value
-                else:
-                    break
+            head = first_evaluated(rest[0].value)
             uses = [n for st in rest for n in ast.walk(st) if isinstance(n, ast.Name) and n.id == tmp]
-            if isinstance(head, ast.Name) and head.id == tmp and len(uses) == 1 and tmp not in env:
+            if isinstance(head, ast.Name) and head.id == tmp and len(uses) == 1 and tmp not in env and tmp not in self.spec.get("locals", {}):
                 class Sub(ast.NodeTransformer):
                     def visit_Name(self, node):
                         return s.value if node.id == tmp else node
                 new0 = Sub().visit(ast.parse(ast.unparse(rest[0])).body[0])
-                return self.block([new0] + rest[1:], env, loop)
+                snap = (self.tmp, len(self.let_log), list(self.params), dict(self.aliases), self.uses_fuel)
+                try:
+                    return self.block([new0] + rest[1:], env, loop)
+                except Unsupported:
+                    # the one-statement spelling is outside the subset: keep the two statements as written
+                    self.tmp, self.params, self.aliases, self.uses_fuel = snap[0], snap[2], snap[3], snap[4]
+                    del self.let_log[snap[1]:]
         # a text that only the (dropped) messages for the user read: `report = f"…"; click.echo(report)`
         if isinstance(s, ast.Assign) and len(s.targets) == 1 and isinstance(s.targets[0], ast.Name) and isinstance(s.value, ast.JoinedStr) and rest \
                 and message_only(s.targets[0].id, rest):
